@@ -22,6 +22,13 @@ open HD
 `[minBet, stack)` / `[wager + previous raise, stack)` are the ones `aiMoves` transcribes; any other shape fails here -/
 def expectedBotRequestAI : List String := ["player := gs.Players[playerIdx]", "if len(player.AllowedActions) == 0 { return nil }", "action := player.AllowedActions[0]", "if len(player.AllowedActions) > 1 { action = br.calcAction(player.AllowedActions) }", "chips := int64(0)", "switch action { case \"bet\": minBet := gs.Status.MiniBet if player.InitialStackSize <= minBet { return br.actions.Bet(player.InitialStackSize) } chips = rand.Int63n(player.InitialStackSize-minBet) + minBet err := br.actions.Bet(chips) if err != nil { return err } br.updateWagerAction(pokertable.WagerAction_Bet, chips) return nil case \"raise\": maxChipLevel := player.InitialStackSize minChipLevel := gs.Status.CurrentWager + gs.Status.PreviousRaiseSize if maxChipLevel <= minChipLevel { err := br.actions.Raise(maxChipLevel) if err != nil { return err } br.updateWagerAction(pokertable.WagerAction_Raise, maxChipLevel) return nil } chips = rand.Int63n(maxChipLevel-minChipLevel) + minChipLevel err := br.actions.Raise(chips) if err != nil { return err } br.updateWagerAction(pokertable.WagerAction_Raise, chips) return nil case \"call\": wager := int64(0) gamePlayerIdx := br.tableInfo.FindGamePlayerIdx(br.playerID) if gamePlayerIdx >= 0 && br.tableInfo != nil && br.tableInfo.State.GameState != nil && gamePlayerIdx < len(br.tableInfo.State.GameState.Players) { wager = br.tableInfo.State.GameState.Status.CurrentWager - br.tableInfo.State.GameState.GetPlayer(gamePlayerIdx).Wager } err := br.actions.Call() if err != nil { return err } br.updateWagerAction(pokertable.WagerAction_Call, wager) return nil case \"check\": err := br.actions.Check() if err != nil { return err } br.updateWagerAction(pokertable.WagerAction_Check, 0) return nil case \"allin\": wager := int64(0) gamePlayerIdx := br.tableInfo.FindGamePlayerIdx(br.playerID) if gamePlayerIdx >= 0 && br.tableInfo != nil && br.tableInfo.State.GameState != nil && gamePlayerIdx < len(br.tableInfo.State.GameState.Players) { wager = br.tableInfo.State.GameState.GetPlayer(gamePlayerIdx).StackSize } err := br.actions.Allin() if err != nil { return err } br.updateWagerAction(pokertable.WagerAction_AllIn, wager) return nil }", "err := br.actions.Fold()", "if err != nil { return err }", "br.updateWagerAction(pokertable.WagerAction_Fold, 0)", "return nil"]
 
+/-- `botRunner.UpdateTableState` as the source has it now: eliminated / not seated-in bots do not play, a state of the
+same hand that is not newer than the last one seen is ignored *and every newer state is remembered*, nothing happens
+unless the table is playing and the bot is dealt in — what `botReacts` transcribes -/
+def expectedBotUpdate : List String := ["gs := table.State.GameState", "br.tableInfo = table", "isEliminated := true", "shouldAutoJoin := false", "for _, ps := range table.State.PlayerStates { if ps.PlayerID == br.playerID { isEliminated = false if !ps.IsIn { shouldAutoJoin = true } break } }", "if isEliminated { return nil }", "if shouldAutoJoin { return br.timebank.NewTask(time.Duration(100)*time.Millisecond, func(isCancelled bool) { if isCancelled { return } br.onTableAutoJoinActionRequested(table.Meta.CompetitionID, table.ID, br.playerID) }) }", "if gs != nil { if gs.GameID != br.curGameID { br.curGameID = gs.GameID } else if br.lastGameStateTime >= gs.UpdatedAt { return nil } br.lastGameStateTime = gs.UpdatedAt }", "if table.State.Status != pokertable.TableStateStatus_TableGamePlaying { return nil }", "gamePlayerIdx := table.GamePlayerIndex(br.playerID)", "if gamePlayerIdx == -1 { return nil }", "player := gs.GetPlayer(gamePlayerIdx)", "if player == nil { return nil }", "if len(player.AllowedActions) > 0 { err := br.requestMove(table.State.GameState, gamePlayerIdx) if err != nil { return err } }", "return nil"]
+
+theorem C18_update_facts : Facts.botUpdate = expectedBotUpdate := by rfl
+
 theorem C18_ai_facts : Facts.botRequestAI = expectedBotRequestAI := by rfl
 
 /-- what the theorems need of the player's entry in a well-formed state -/
